@@ -17,7 +17,8 @@ from lib import e5ref, gen, stuck, vtime, wire
 
 PROPERTY = "C13"
 LEVEL = "exploration"
-RULE = ("random histories (<= 25 steps, thorough <= 80) over the eight request types with id lists mixing known, unknown and "
+RULE = ("(constants include ranges whose limits are 0) "
+        "random histories (<= 25 steps, thorough <= 80) over the eight request types with id lists mixing known, unknown and "
         "repeated ids in every integer format that holds them plus text ids, ECVs in range / at min / at max / +-1 outside / in "
         "another numeric format, alarm set/clear and SV/EC value updates; distinct by request sequence; non-trivial when "
         "at least three different request types were answered")
